@@ -45,13 +45,17 @@ NoVote == INSTANCE RaftCore WITH Dev <- Dev \ {"same_term_ae_clears_vote"}
 NoMatch == INSTANCE RaftCore WITH Dev <- Dev \ {"match_is_follower_last_index"}
 NoFut == INSTANCE RaftCore WITH Dev <- Dev \ {"future_keyed_by_index_only"}
 NoStale == INSTANCE RaftCore WITH Dev <- Dev \ {"stale_term_ae_response"}
+NoOldCommit == INSTANCE RaftCore WITH Dev <- Dev \ {"commit_counts_old_term_entry"}
+NoTally == INSTANCE RaftCore WITH Dev <- Dev \ {"vote_tally_survives_retry"}
 DevOrder == <<"same_term_ae_clears_vote", "match_is_follower_last_index", "future_keyed_by_index_only",
-              "stale_term_ae_response">>
+              "stale_term_ae_response", "commit_counts_old_term_entry", "vote_tally_survives_retry">>
 Firing(s, self, st, r) ==
     (IF NoVote!OnStep(s, self, st) # r THEN {DevOrder[1]} ELSE {})
     \cup (IF NoMatch!OnStep(s, self, st) # r THEN {DevOrder[2]} ELSE {})
     \cup (IF NoFut!OnStep(s, self, st) # r THEN {DevOrder[3]} ELSE {})
     \cup (IF NoStale!OnStep(s, self, st) # r THEN {DevOrder[4]} ELSE {})
+    \cup (IF NoOldCommit!OnStep(s, self, st) # r THEN {DevOrder[5]} ELSE {})
+    \cup (IF NoTally!OnStep(s, self, st) # r THEN {DevOrder[6]} ELSE {})
 
 ToSet(q) == { q[j] : j \in 1..Len(q) }
 RECURSIVE SeqBag(_)
